@@ -142,8 +142,11 @@ class CHECK(vlib.Check):
             ops.append("m:" + hx(s.replace("\0", "")))
         return ops
 
+    _calls = 0
+
     def gen_cases(self, rng, tier):
         quick = (tier == "quick")
+        self._calls += 1          # thorough runs three seeds: the exhaustive enumeration is generated once
         out = []
         def case(stream, ops, head="O"):
             out.append((stream, head + "|" + ";".join(ops)))
@@ -152,30 +155,30 @@ class CHECK(vlib.Check):
         pats = []
         for L in (0, 1, 2):
             pats += ["".join(t) for t in itertools.product(META, repeat=L)]
-        if quick:
+        if quick or self._calls > 1:
             for L, cnt in ((3, 500), (4, 700)):
                 pats += [gen_soup(rng, META, L) for _ in range(cnt)]
         else:
             for L in (3, 4):
                 pats += ["".join(t) for t in itertools.product(META, repeat=L)]
         for p in pats:
-            cap, n = (3, 3) if (quick or len(p) >= 4) else (3, 4)
+            cap, n = (3, 3) if quick else ((3, 5) if len(p) <= 3 else (3, 4))   # thorough: every subject up to length 5 (4 for the 83521 patterns of length 4) over three characters
             case("enum", ["sp:%s:?" % hx(p), "e:%s:%d" % (hx(subj_alphabet(p, rng, cap)), n)])
 
         # ---- 2. mostly valid random patterns
-        for _ in range(1200 if quick else 30000):
+        for _ in range(1200 if quick else 15000):
             p = gen_valid(rng)
             case("valid", ["sp:%s:?" % hx(p)] + self._subjects(rng, p, tier))
 
         # ---- 3. character soup over the wider alphabet (malformed stream)
-        for _ in range(500 if quick else 20000):
+        for _ in range(500 if quick else 10000):
             p = gen_soup(rng, META + EXTRA, rng.choice([1, 2, 3, 5, 7, 10]))
             case("soup", ["sp:%s:?" % hx(p)] + self._subjects(rng, p, tier, 2))
 
         # ---- 4. escaping: EscapeRegexTokens(s) must match s only
         esc_alpha = META + EXTRA + "\x01\x7f\x80\xff"
         firsts = "`<~\\[*a-."
-        for i in range(700 if quick else 20000):
+        for i in range(700 if quick else 10000):
             L = rng.choice([0, 1, 1, 2, 3, 4, 6, 9])
             s = gen_soup(rng, esc_alpha, L)
             if s and rng.random() < 0.35:
@@ -191,7 +194,7 @@ class CHECK(vlib.Check):
             case("escape", ops)
 
         # ---- 5. numeric range lists
-        for _ in range(500 if quick else 15000):
+        for _ in range(500 if quick else 8000):
             p = gen_range_pattern(rng)
             subs = rng.sample(NUM_SUBJECTS, 10) + [str(rng.choice([0, 1, 5, 9, 10, 20, 21, 100, 4294967295, 4294967296]) + rng.choice([-1, 0, 1]))]
             case("range", ["sp:%s:?" % hx(p)] + ["m:" + hx(s) for s in subs if not s.startswith("-1")])
@@ -206,7 +209,7 @@ class CHECK(vlib.Check):
             if kind == "raw": return rng.choice(["`a.*", "`^a$", "`[0-9]", "`", "~`a", "`(a|b)c"])
             return gen_valid(rng)
         kinds = ["range", "plain", "wild", "neg", "bad", "raw", "any"]
-        for _ in range(700 if quick else 15000):
+        for _ in range(700 if quick else 8000):
             ops = []
             for step in range(rng.choice([2, 2, 3, 4, 6])):
                 k = rng.choice(kinds)
@@ -288,12 +291,16 @@ class CHECK(vlib.Check):
         exe = os.path.join(vlib.BUILD, "bin", "pat_model")
         lines = [c for _, c in out]
         marks = {}
+        self._grammar = getattr(self, "_grammar", {"W": 0, "n": 0})
         if os.path.exists(exe):
             p = subprocess.run([exe, "--classify"], input="".join(l + "\n" for l in lines), stdout=subprocess.PIPE, text=True, timeout=900)
             for l in p.stdout.splitlines():
                 sp = l.split(" ", 1)
                 if sp[0].isdigit():
-                    marks[int(sp[0])] = sp[1] if len(sp) > 1 else ""
+                    f = (sp[1] if len(sp) > 1 else "").split(" ")
+                    marks[int(sp[0])] = f[0]
+                    for ch in (f[1] if len(f) > 1 else ""):
+                        self._grammar[ch] = self._grammar.get(ch, 0) + 1
         res = []
         for k, (stream, line) in enumerate(out):
             ms = list(marks.get(k, ""))
@@ -327,4 +334,7 @@ class CHECK(vlib.Check):
                 d[k] = d.get(k, 0) + 1
             d["marker:U"] = d.get("marker:U", 0) + len(re.findall(r":U(;|$)", c))
             d["marker:S"] = d.get("marker:S", 0) + len(re.findall(r":S(;|$)", c))
+        g = getattr(self, "_grammar", {})
+        d["patterns accepted by the reader of the documented wildcard grammar (domain of translate_correct)"] = g.get("W", 0)
+        d["patterns outside it (ranges, raw regex, regex-syntax mode, malformed, class members , . + * ? \\ ...)"] = g.get("n", 0)
         return d
